@@ -299,6 +299,10 @@ pub fn run_case(ctx: &Ctx, case: u64, ev: &mut Ev) {
                 if p.bias[i] > 0.0 && !(dist[i] == f64::INFINITY) {
                     fail!("c14:distance:allspace", format!("row {} includes all points but distance = {}", i, dist[i]));
                 }
+                // a row 0.x <= b with b < 0 excludes every point: the signed distance must be negative
+                if p.bias[i] < 0.0 && !(dist[i] < 0.0) {
+                    fail!("c14:distance:nospace", format!("row {} (0.x <= {}) excludes all points but distance = {}", i, p.bias[i], dist[i]));
+                }
                 continue;
             }
             let e = raw / norm;
@@ -370,6 +374,12 @@ pub fn run_case(ctx: &Ctx, case: u64, ev: &mut Ev) {
         semantic!("unbounded", u, cpts, |_x: &Vec<Q>| true);
         let e = call!("empty", Polytope::empty(dd));
         semantic!("empty", e, cpts, |_x: &Vec<Q>| false);
+        // distance() signed accordingly: no point is in the empty set, so some entry must be negative
+        let de = call!("distance", e.distance(&arr1(&cpts[0])));
+        if !de.iter().any(|v| *v < 0.0) {
+            fail!("c14:distance:empty", format!("empty({}).distance({:?}) = {:?} reports no violated constraint", dd, cpts[0], de.to_vec()));
+        }
+        ev.inc("distance_checks_on_empty");
     }
     if dd <= 4 {
         let cp = call!("cross_polytope", Polytope::cross_polytope(dd));
